@@ -2,7 +2,7 @@
    summary theorems of C05: every operation of every back-end model equals the spec, hence any
    two back-ends agree. *)
 From FCA Require Import Base.ListSet Model.BinTable Model.BinTableOps Spec.Galois
-     Spec.BinTableOpsSpec Lemmas.BitRow.
+     Spec.BinTableOpsSpec Lemmas.BitRow Model.FormalContext Lemmas.C01.
 From FCA Require Import Lemmas.C05_Base Lemmas.C05_Reduce Lemmas.C05_Algebra.
 
 (* subscripts only have to be in range: index lists may be unsorted and may repeat an index *)
@@ -175,6 +175,9 @@ Definition ok_op (t : table) (o : op) : Prop :=
   | OCtxGet on an it => item_ok t it /\ length on = height t /\ length an = width t
   | OCtxT on an | OCtxInvert on an => length on = height t /\ length an = width t
   | OCtxExtents an => length an = width t
+  | ODeriv 0 arg base | ODeriv 2 arg base => in_range (width t) arg /\ opt_in_range (height t) base
+  | ODeriv 1 arg base => in_range (height t) arg /\ opt_in_range (width t) base
+  | ODeriv _ arg base => in_range (height t) arg /\ opt_in_range (width t) base /\ NoDup arg
   | _ => True
   end.
 
@@ -213,6 +216,13 @@ Proof.
   - destruct Hok as [Ho Ha]. apply ctx_invert_correct; assumption.
   - apply ctx_extents_correct.
   - unfold ctx_eq. rewrite eq_m_correct by assumption. rewrite andb_true_r. reflexivity.
+  - (* the derivation operators: Lemmas/C01.v *)
+    destruct kind as [|[|[|k]]]; cbn [ok_op spec_applies] in Hok, Hs; cbn [run_op spec_op].
+    + destruct Hok. rewrite extension_i_correct by assumption. reflexivity.
+    + destruct Hok. rewrite intention_i_correct by assumption. reflexivity.
+    + destruct Hok. apply negb_true_iff, Nat.eqb_neq in Hs.
+      rewrite extension_mono_correct by assumption. reflexivity.
+    + destruct Hok as [? [? ?]]. rewrite intention_mono_correct by assumption. reflexivity.
 Qed.
 
 (* where the property does not say what the answer is, the back-ends still give the same *)
@@ -241,6 +251,9 @@ Proof.
       destruct (sel_idx r) as [|i0 r0] eqn:Er; [|destruct (sel_idx c); discriminate].
       destruct (sel_idx c) as [|j0 c0] eqn:Ec; [discriminate|].
       simpl. unfold mk_ctx. simpl. rewrite Ec. reflexivity.
+  - (* monotone extension of the full attribute set: the shortcut returns the base set *)
+    destruct kind as [|[|[|k]]]; cbn [spec_applies] in Hs; try discriminate.
+    apply negb_false_iff in Hs. cbn [run_op]. unfold extension_monotone_i. rewrite Hs. reflexivity.
 Qed.
 
 Theorem backends_interchangeable b1 b2 t o :
@@ -256,8 +269,6 @@ Lemma empty_row_selection b t : run_op b t (OGet (ItSel (SList []))) = ROk (VTab
 Proof. destruct b; reflexivity. Qed.
 
 (* ---------------------------------------------------------------- context observers of C01 *)
-From FCA Require Import Model.FormalContext Lemmas.C01.
-
 Theorem context_backend_free b1 b2 t A base :
   wf t ->
   (in_range (width t) A -> opt_in_range (height t) base ->
